@@ -77,6 +77,15 @@ PROPS = {
         statement="for every input, read-fault position and failing-write index: the result is ok iff no fault was reached and no line is over-long; bytes written before a failing write are a whole-line prefix of the fault-free output; a read fault at a line boundary yields a prefix and an error",
         partial="C08_read_prefix is stated for cuts at line boundaries; a cut inside a line hands the partial tail to the parser, which rejects every proper prefix of a JSON object since the fix of the truncated-object defect (corresponded, sampled at every kind of offset) - the general statement for mid-line cuts is not yet a theorem. Real devices (/dev/full, closed pipe) and gzip damage are runtime: whole-program runs",
     ),
+    "C04": dict(
+        module="Anonymongo.Props.C04",
+        theorems=["Anonymongo.C04_top_frame", "Anonymongo.C04_attr_frame", "Anonymongo.C04_flags", "Anonymongo.C04_ungated", "Anonymongo.C04_ungated_noflags",
+                  "Anonymongo.C04_cmd_frame", "Anonymongo.C04_kept_params", "Anonymongo.C04_limit_skip", "Anonymongo.C04_numtext", "Anonymongo.C03_line"],
+        extra_modules=["Anonymongo.Props.C03"],
+        corr=["line", "other", "text", "sweep"],
+        statement="for every line, flag set and plan-summary rewriter: top-level members other than attr, attributes other than the three command documents / remote / ns / planSummary, and members of a command document other than the zone keys (and string namespace fields under --redactNamespaces) are emitted unchanged, keys and order preserved; remote changes only with --redactIPs, ns only with --redactNamespaces, planSummary only with a --redactFieldNames path; on ungated lines nothing but remote / ns changes; $limit/$skip are exempt under every key path and the listed top-level stage parameters are exempt (kernel decide over the regenerated tables); numbers print as their literal text; keys inside zones: C03_line",
+        partial="string contents / number text surviving the parser and the printer (escapes, 64-bit integers, exponents) is the byte-level model, corresponded on exotic literals and checked by the exact-tree oracle; a $limit/$skip argument that is a DOCUMENT (canonical extended JSON {$numberLong}) inside a nested $lookup/$unionWith pipeline is walked by the query walker, not copied (the theorem states the scalar case there)",
+    ),
     "C05": dict(
         module="Anonymongo.Props.C05",
         theorems=["Anonymongo.C05_valid", "Anonymongo.C05_class", "Anonymongo.C05_decision_value_free"],
